@@ -113,6 +113,56 @@ func c07r2(c *core.Ctx) {
 				}
 			}
 		}
+		// the armed VM is handed to a callable whose call releases it in a deferred statement
+		// (the thread started for a clone outlives this function)
+		handedOver := false
+		if !ok {
+			ast.Inspect(fd.Body, func(k ast.Node) bool {
+				cl, isCL := k.(*ast.CompositeLit)
+				if !isCL || cl.Pos() < armCall.Pos() {
+					return true
+				}
+				nt := core.NamedOf(info.TypeOf(cl))
+				if nt == nil || nt.Obj().Pkg() != r.pk.Types {
+					return true
+				}
+				// the armed receiver expression is one of the literal's values
+				armedX := ""
+				if se, isSel := armCall.Fun.(*ast.SelectorExpr); isSel {
+					armedX = exprStr(se.X)
+				}
+				holds := false
+				for _, el := range cl.Elts {
+					v := el
+					if kv, isKV := el.(*ast.KeyValueExpr); isKV {
+						v = kv.Value
+					}
+					if exprStr(v) == armedX && armedX != "" {
+						holds = true
+					}
+				}
+				if !holds {
+					return true
+				}
+				for _, tm := range core.Methods(nt) {
+					tfd := p.Decl(tm)
+					if tfd == nil || tfd.Body == nil || len(tfd.Body.List) == 0 {
+						continue
+					}
+					if ds, isDefer := tfd.Body.List[0].(*ast.DeferStmt); isDefer && calleeOf(info, ds.Call) == r.disarm {
+						handedOver = true
+					}
+				}
+				return true
+			})
+			if handedOver {
+				ok = true
+			}
+		}
+		if handedOver {
+			c.Pass(key, posOf(p, fd), m.Name()+" arms the VM and hands it to a callable whose call begins with a deferred "+r.disarm.Name())
+			continue
+		}
 		// nothing between arm and the defer may return without disarming, except the arm error check itself
 		if ok {
 			var deferPos token.Pos
